@@ -86,9 +86,10 @@ theorem C13_named {P : Type} [DecidableEq P] (ws : List (P × P)) (ord : SetOrd 
 
 /-! ## polarity -/
 
-/-- Every translator treats the reversal flag consistently — it either swaps the terminals and
-negates exactly its amplitude argument (`V` or `I`), or does neither (`TrCase.polarityOK`,
-evaluated on the generated translator bodies) — and for such a translator the signed argument
+/-- Every translator treats the reversal flag consistently — only an amplitude argument (`V` or `I`)
+looks at the flag, and it is negated exactly when the terminals are swapped (`TrCase.polarityOK`,
+evaluated on the generated translator bodies; passive symbols swap without a sign, 006d781) —
+and for such a translator the signed argument
 evaluates to the attribute value, negated exactly when the terminals are swapped: the source
 contributes its element value from `start` to `end` whether or not it is marked reversed. -/
 theorem C13_polarity :
@@ -198,9 +199,11 @@ theorem C13_order (syms syms' : List Sym) (h : syms.Perm syms') :
 /-- The generated tables are closed and unambiguous: class names and map keys are distinct,
 every translator / constructor the map refers to was extracted, node classes carry names,
 every named symbol class (but `Admittance`) has a translator, the sine shift of a phase given in
-degrees is 90 (finding 2, repaired by 0b34a29). -/
+degrees is 90 (finding 2, repaired by 0b34a29), every two-terminal translator swaps its terminals
+under `reverse` (006d781). -/
 theorem C13_tables :
     classNamesDistinct = true ∧ translatorMapKeysDistinct = true ∧ translatorMapClosed = true ∧
-    nodeClassesNamed = true ∧ namedClassesTranslated = true ∧ sinShiftInDegrees = true := by decide
+    nodeClassesNamed = true ∧ namedClassesTranslated = true ∧ sinShiftInDegrees = true ∧
+    allTwoTerminalSwap = true := by decide
 
 end CC
